@@ -551,7 +551,8 @@ fn apply(ctx: &mut Ctx, sq: &mut Seq, kind: &str) {
             let exp = a.rf == b.rf;
             ctx.tag(if a.bs.is_u8_slice() && b.bs.is_u8_slice() { "eq:fast-path" } else { "eq:iter8-path" });
             let (x, y) = (&a.bs, &b.bs);
-            let r = crate::guarded(|| x.eq_with(y));
+            // `==` (what `equal?`, `assert-eq`, `case` and map keys use) and `eq_with` are one relation
+            let r = crate::guarded(|| { let (p, q) = (x.eq_with(y), x == y); if p != q { panic!("eq_with {} but == {}", p, q) } p });
             sq.finish_op(ctx, format!("eq {} {}", i, j), r.map(|b| (if b { "T" } else { "F" }).to_string()), Some((if exp { "T" } else { "F" }).to_string()));
         }
         q => {
@@ -749,7 +750,7 @@ fn representation_independence(ctx: &mut Ctx, bits: &[bool], exhaustive: bool) {
         let (i, j) = (ctx.rng.below(n), ctx.rng.below(n));
         let (ni, vi, _) = &variants[i];
         let (nj, vj, _) = &variants[j];
-        let eq = crate::guarded(|| vi.eq_with(vj) && vj.eq_with(vi));
+        let eq = crate::guarded(|| vi.eq_with(vj) && vj.eq_with(vi) && vi == vj && vj == vi);
         ctx.check(eq == Some(true), || format!("{} eq_with {}", desc(ni), nj), || "true".into(), || format!("{:?}", eq));
         let mut exp = bits.to_vec();
         exp.extend_from_slice(bits);
@@ -771,6 +772,31 @@ fn representation_independence(ctx: &mut Ctx, bits: &[bool], exhaustive: bool) {
         ctx.check(det.as_deref() == Some(bits), || format!("{} detach (of a clone)", desc(ni)), || pack_hex(bits), || format!("{:?}", det.clone().map(|x| pack_hex(&x))));
         let sp = crate::guarded(|| vi.split_at(k).map(|(l, r)| (impl_bits(&l), impl_bits(&r))));
         ctx.check(sp == Some(Some((bits[..k].to_vec(), bits[k..].to_vec()))), || format!("{} split_at {}", desc(ni), k), || "prefix/suffix".into(), || format!("{:?}", sp.is_some()));
+    }
+    // two views of ONE buffer that denote the same bits at different places (and a third that differs in one bit):
+    // equality looks at the bits, not at where in the shared buffer they are
+    if !bits.is_empty() {
+        let gap: Vec<bool> = (0..ctx.rng.below(11)).map(|_| ctx.rng.bool()).collect();
+        let lead: Vec<bool> = (0..ctx.rng.below(9)).map(|_| ctx.rng.bool()).collect();
+        let mut other = bits.to_vec();
+        let flip = ctx.rng.below(other.len());
+        other[flip] = !other[flip];
+        let mut all = lead.clone();
+        all.extend_from_slice(bits); all.extend_from_slice(&gap); all.extend_from_slice(bits); all.extend_from_slice(&other);
+        let total = all.len();
+        while all.len() % 8 != 0 { all.push(true); }
+        let parent = Bitstr::from(all.chunks(8).map(|c| ref_be(c) as u8).collect::<Vec<u8>>());
+        let n = bits.len();
+        let (a0, b0, c0) = (lead.len(), lead.len() + n + gap.len(), lead.len() + 2 * n + gap.len());
+        let r = crate::guarded(|| {
+            let (a, b, c) = (parent.substr(a0, a0 + n).unwrap(), parent.substr(b0, b0 + n).unwrap(), parent.substr(c0, c0 + n).unwrap());
+            let a2 = parent.substr(a0, a0 + n).unwrap();
+            format!("a==b:{} b==a:{} a.eq_with(b):{} a==a':{} a==c:{} c==b:{} cell:{}", a == b, b == a, a.eq_with(&b), a == a2, a == c, c == b,
+                xeh::cell::Cell::from(a.clone()) == xeh::cell::Cell::from(b.clone()))
+        });
+        let exp = "a==b:true b==a:true a.eq_with(b):true a==a':true a==c:false c==b:false cell:true".to_string();
+        ctx.check(r.as_ref() == Some(&exp), || format!("repr-indep views of one buffer len={} bits={} at {}/{}/{} of {}", n, pack_hex(bits), a0, b0, c0, total), || exp.clone(), || format!("{:?}", r));
+        ctx.tag("repr-indep:two-views-of-one-buffer");
     }
     // consuming operations on the variant itself (unique-owner paths), last
     for (name, v, keep) in variants {
